@@ -8,6 +8,7 @@ verus! {
 //@type base/src/expressions/lexer/mod.rs LexerError
 //@type base/src/expressions/lexer/mod.rs Lexer
 
+pub assume_specification [<char>::to_ascii_uppercase] (c: &char) -> (r: char);
 pub assume_specification [<char>::is_alphanumeric] (c: char) -> (r: bool);
 pub assume_specification [<char>::is_ascii_digit] (c: &char) -> (r: bool);
 
@@ -81,6 +82,47 @@ pub fn scan_integer(&mut self) -> (position: usize)
 //@rewrite `chars.push(next_char);` => ``
 //@end
     position
+}
+
+pub fn scan_reference_a1(&mut self) -> (r: core::result::Result<usize, LexerError>)
+    requires old(self).wf()
+    ensures final(self).wf()
+{
+//@fragment base/src/expressions/lexer/ranges.rs Lexer::consume_reference_a1 `let mut absolute_column = false;` .. `self.position = position;`
+//@loop 1
+            invariant self.wf(), len == self.len, position <= len
+            decreases len - position
+//@loop 2
+            invariant self.wf(), len == self.len, position <= len
+            decreases len - position
+//@end
+    Ok(position)
+}
+
+//@fn base/src/expressions/lexer/mod.rs Lexer::consume_string
+//@spec
+    requires old(self).wf()
+    ensures final(self).wf()
+//@rewrite `-> Result<String> {` => `-> core::result::Result<String, LexerError> {`
+//@loop 1
+            invariant self.wf(), len == self.len, position <= len
+            decreases len - position
+//@end
+
+pub fn scan_single_quote_string(&mut self) -> (r: core::result::Result<(usize, usize), LexerError>)
+    requires old(self).wf()
+    ensures
+        // the slice self.chars[self.position..position - 1] taken next is in range
+        r matches Ok((start, end)) ==> start <= end <= final(self).len && final(self).wf(),
+{
+//@fragment base/src/expressions/lexer/mod.rs Lexer::consume_single_quote_string `let mut position = self.position;` .. `let chars: String = self.chars[self.position..position - 1]`
+//@loop 1
+            invariant_except_break success == false
+            invariant self.wf(), len == self.len, self.position <= position <= len
+            ensures self.wf(), position <= len, success ==> self.position + 1 <= position
+            decreases len - position
+//@rewrite `let chars: String = self.chars[self.position..position - 1].iter().collect();` => `return Ok((self.position, position - 1));`
+//@end
 }
 
 }
